@@ -41,6 +41,8 @@ impl Decimal {
     #[verifier::external_body]
     pub fn is_zero(&self) -> (r: bool) ensures r == (self.v() == 0real) { unimplemented!() }
     #[verifier::external_body]
+    pub fn is_sign_positive(&self) -> (r: bool) ensures self.v() > 0real ==> r, self.v() < 0real ==> !r { unimplemented!() }
+    #[verifier::external_body]
     pub fn is_sign_negative(&self) -> (r: bool) ensures self.v() < 0real ==> r, self.v() > 0real ==> !r { unimplemented!() }
     /// banker's rounding: only "within half a unit" is specified
     #[verifier::external_body]
